@@ -130,7 +130,14 @@ Faults13 == {[s |-> "{{ zz }}", rt |-> TRUE, k |-> "undefined-identifier", dl |-
              \* a faulty call whose argument list spans several lines: the construct is the function's name
              [s |-> "{{ \"s\".nope(1,\n2\n) }}", rt |-> TRUE, k |-> "unknown-function", dl |-> 0],
              [s |-> "{{ \"s\"\n.nope(\n1\n) }}", rt |-> TRUE, k |-> "unknown-function", dl |-> 1],
-             [s |-> "{{ 5.nope(\n\n) }}", rt |-> TRUE, k |-> "unknown-function", dl |-> 0]}
+             [s |-> "{{ 5.nope(\n\n) }}", rt |-> TRUE, k |-> "unknown-function", dl |-> 0],
+             \* the offending token is a string that itself spans several lines: the line on which it ENDS (the operator and the
+             \* other operand sit on that line too, so every reading of "the construct's token" gives the same line)
+             [s |-> "{{ \"a\nb\" + 1 }}", rt |-> TRUE, k |-> "mistyped-operand", dl |-> 1],
+             [s |-> "{{ \"a\n\nb\" * \"c\" }}", rt |-> TRUE, k |-> "mistyped-operand", dl |-> 2],
+             [s |-> "{{ ob[\"no\nsuch\"] }}", rt |-> TRUE, k |-> "unknown-property", dl |-> 1]}
+             \* (not: -"a⏎b" - the code reports the line of the prefix operator, which is "the construct's token" as well as the
+             \* string is; a first version of this set demanded the string's line and was wrong to)
 Sum(ss) == LET RECURSIVE S(_) S(x) == IF x = <<>> THEN 0 ELSE x[1].nl + S(Tail(x)) IN S(ss)
 Texts(ss) == LET RECURSIVE S(_) S(x) == IF x = <<>> THEN "" ELSE x[1].s \o S(Tail(x)) IN S(ss)
 \* placement contexts: [src, line]
